@@ -153,6 +153,7 @@ type ClientState struct {
 	isTakenOver     atomic.Bool          // used to identify orphaned clients
 	packetID        uint32               // the current highest packetID
 	packetIDLock    sync.Mutex           // serialises packet id allocation (not the client mutex, which is held during network writes)
+	inflightSetLock sync.Mutex           // makes "allocate a packet id, then register the message under it" one step
 	open            context.Context      // indicate that the client is open for packet exchange
 	cancelOpen      context.CancelFunc   // cancel function for open context
 	outboundQty     int32                // number of messages currently in the outbound queue
